@@ -795,6 +795,9 @@ func impl() {
 			}
 		}
 	})
+	if tmpDir != "" { // directory of the ExtractFile documents (obs.go)
+		os.RemoveAll(tmpDir)
+	}
 }
 
 func main() {
